@@ -1,8 +1,16 @@
 (* Case decoder / result encoder for property C08 (same language: harness/src/c08.rs,
    tools/props/c08.py).
      (8 op ty (n0 n1) rows cols (x ...))
-        op 1 = Cholesky, 2 = LDL^T, 3 = QR ; ty 0 = Rat, 1 = Fp ; n0 n1 = dimension names of the
-        tensor forms ; rows, cols >= 1 ; x ... = rows*cols entries, row-major.
+        op 1 = Cholesky, 2 = LDL^T, 3 = QR ; ty 0 = Rat, 1 = Fp, 2 = StrictRat ; n0 n1 = dimension
+        names of the tensor forms ; rows, cols >= 1 ; x ... = rows*cols entries, row-major.
+        ty 2 (StrictRat, harness/src/c08/strict.rs): entries encoded as for Rat, same values as Rat,
+        but on the implementation side `/` PANICS on a zero divisor (as ordinary exact rational /
+        integer types do).  The model runs the SAME total dictionary Qops for tag 2: by
+        C08_ldlt_rejects / C08_ldlt_absent_iff_zero_pivot a zero pivot is answered None and by
+        C08_cholesky_rejects* a non-positive pivot is, and the property says "never a panic" for
+        these inputs — so the code must reach its absence decision before any division by the
+        pivot, and the results for tag 2 are those for tag 0.  An implementation panic is answered
+        `(2)` by the harness, which no model result equals.
    Result (absent `()` or present):
         Cholesky:  ((shape (l ...)))                      shape = ((n0 rows) (n1 cols))
         LDL^T:     ((shape (l ...) (d ...)))
@@ -16,8 +24,8 @@
         when absent, (0 code) when an identity fails.  The model answers with the PRESENCE it
         predicts exactly over the rationals: Cholesky present <-> square and every LDL^T pivot
         positive; LDL^T present <-> the exact LDL^T is; QR present <-> rows >= cols.
-   Outside the language (bad case, both sides): square Rat Cholesky of more than 4 rows and Rat QR needing
-   more than one reflection — the polynomial sqrt stand-in makes the exact rationals explode (a
+   Outside the language (bad case, both sides): square Rat / StrictRat Cholesky of more than 4 rows and
+   Rat / StrictRat QR needing more than one reflection — the polynomial sqrt stand-in makes the exact rationals explode (a
    3x2 QR takes the extracted model more than a minute); Fp has no such limit.
    `sqrt` is the fixed polynomial of Model/Num.v on both sides: the factors are compared exactly
    as computation skeletons (same field operations, same sqrt calls, same comparisons). *)
@@ -67,6 +75,8 @@ Definition run_c08 (args : list sx) : sx :=
       match dpair dnat dnat names, dnat rows, dnat cols with
       | Some names, Some rows, Some cols =>
           if Nat.eqb rows 0 || Nat.eqb cols 0 || Nat.eqb (fst names) (snd names) then bad_case else
+          (* tag 2 = StrictRat: the rationals again (the model's division is total) *)
+          let ty := if Z.eqb ty 2 then 0%Z else ty in
           if Z.eqb ty 0 && ((Z.eqb op 1 && Nat.ltb 4 rows && Nat.eqb rows cols) ||
                             (Z.eqb op 3 && Nat.leb cols rows && Nat.ltb 1 (Nat.min (rows - 1) cols)))
           then bad_case else
